@@ -569,7 +569,9 @@ func c05Shared(c *lab.Ctx, cm types.ClusterManager) {
 				}
 			}
 			addr := func(i int) string { return fmt.Sprintf("10.6.%d.%d:80", n%250, 1+i) }
-			mk := func(i int) v2.Host { return v2.Host{HostConfig: v2.HostConfig{Address: addr(i), Weight: uint32(1 + i%3)}} }
+			mk := func(i int) v2.Host {
+				return v2.Host{HostConfig: v2.HostConfig{Address: addr(i), Weight: uint32(1 + i%3)}}
+			}
 			const S = 5
 			all := func() []v2.Host {
 				var hs []v2.Host
